@@ -211,7 +211,9 @@ def run(ctx):
                 "nested to MAX_NEST+2, every truncation, whitespace runs of 0..33 before the end, numbers ending after - . e e+, strings ending inside escapes, random bytes; "
                 "flags incl. skip_unknown and unquoted state) vs JsonScan.lean: result position / error class / error location / more / line / pos must agree. "
                 "Char arrays: flatcc_json_parser_char_array on N = 0..9,16,17 with every escape form starting with 0..3 bytes of room left, all four flag sets, "
-                "destination ending at a guard page with a canary in front, vs CharArray.lean; print_char_array -> char_array round trip on the implementation.",
+                "destination ending at a guard page with a canary in front, vs CharArray.lean; print_char_array -> char_array round trip on the implementation. "
+                "Struct arrays (tools/sarr.py): random struct shapes with fixed arrays of structs (nested), scalars, enums; arrays given exactly / under-filled / "
+                "[] / over-filled, members shuffled or left out; accepted texts must verify and carry exactly the predicted struct bytes.",
         **jcov, "schemas": len(results), "mutants": nmut, "accepted": nok, "rejected": nerr, "error_codes": errs,
         "traces_validated_against_impl": nmut, "spec_oracle_failures": len(bad)})
     ctx.samples = []
